@@ -718,7 +718,8 @@ def c18_cases(tier, seed):
 def c08_cases(tier, seed):
     rng = random.Random(8000 + seed)
     cases = []
-    kinds = ["str", "interp", "comp", "range", "plural", "num", "fk_rename", "fk_fixed", "fk_comp", "null"]
+    kinds = ["str", "interp", "comp", "range", "plural", "num", "fk_rename", "fk_fixed", "fk_comp",
+             "show_count", "count_fmt", "plural_silent", "range_silent", "null"]
 
     def value(kind, l, k, ty):
         m = "%s.%s" % (l, k)
@@ -736,6 +737,14 @@ def c08_cases(tier, seed):
             return NUM(12)
         if kind == "fk_rename":
             return S(FK("tr_%s" % (ty or "i32"), {"count": S(V("renamed"))}), " ", V("z"))
+        if kind == "show_count":
+            return S(m + " shows ", V("count"))                       # `count` used as a plain displayed variable
+        if kind == "count_fmt":
+            return S(m + " formats ", V("count", {"name": "number", "args": None}))
+        if kind == "plural_silent":
+            return PLURAL("cardinal", {"one": S(m + " one"), "other": S(m + " other")})     # count never displayed
+        if kind == "range_silent":
+            return RANGE(ty, [([("exact", 1)], S(m + " one")), ("fallback", S(m + " many"))])
         if kind == "fk_comp":
             # the substituted variable sits inside a component of the target
             return S(FK("tc", {"who": S("fixed " + l), "unused": S("x")}), " ", V("z"))
@@ -745,7 +754,18 @@ def c08_cases(tier, seed):
 
     combos = list(itertools.product(kinds[:-1], kinds, kinds))
     rng.shuffle(combos)
-    combos = [c for c in combos if not ("range" in c and "plural" in c)]      # mixing them on one count is an error (below)
+    rangeish = {"range", "range_silent", "fk_rename"}
+    pluralish = {"plural", "plural_silent"}
+    def ok(c):
+        # a range and a plural on the same count variable is an error (below); a float count cannot be a plural operand
+        # only through Into<PluralOperands>: keep the float range types away from plural / formatter kinds
+        return not (set(c) & {"range", "range_silent"} and set(c) & pluralish)
+    combos = [c for c in combos if ok(c)]
+    # make sure the count-role mixes are present in every tier
+    forced = [("show_count", "plural_silent", "str"), ("plural_silent", "show_count", "plural"), ("count_fmt", "plural_silent", "plural"),
+              ("plural", "count_fmt", "str"), ("show_count", "range_silent", "null"), ("range_silent", "count_fmt", "show_count"),
+              ("plural_silent", "null", "show_count"), ("count_fmt", "str", "plural_silent")]
+    combos = forced + [c for c in combos if c not in forced]
     n = 40 if tier == "quick" else 300
     per = 5
     types = [None, "u8", "i64", "u16", "f32"]
